@@ -21,9 +21,14 @@ GLOBAL_DEADLINE = [None]          # set by run.py: absolute time at which the wh
 class case_time_limit:
     """SIGALRM-based limit for one execution of the real code; the global alarm of run.py is re-armed afterwards"""
 
+    def __init__(self, limit=None):
+        self.own = limit          # a property whose cases take milliseconds may set a much shorter limit (Prop.case_limit)
+
     def __enter__(self):
         import signal
         self.limit = int(os.environ.get("VERIF_CASE_TIMEOUT", "120" if os.environ.get("VERIF_TIER", "quick") == "quick" else "600"))
+        if self.own and "VERIF_CASE_TIMEOUT" not in os.environ:
+            self.limit = min(self.limit, int(self.own))
         self.prev = signal.getsignal(signal.SIGALRM)
         if GLOBAL_DEADLINE[0] is None or not callable(self.prev):
             self.active = False
@@ -117,7 +122,7 @@ class Prop:
 
     def safe_impl(self, case):
         try:
-            with case_time_limit():
+            with case_time_limit(getattr(self, 'case_limit', None)):
                 return canon(self.impl(case))
         except MachineryError:
             raise
@@ -164,7 +169,13 @@ def shrink_case(prop, case, still_fails, limit=300):
     t_end = time.time() + (90 if os.environ.get("VERIF_TIER", "quick") == "quick" else 600)      # shrinking is a convenience
     while changed and n < limit and time.time() < t_end:
         changed = False
-        for c in prop.shrink(case):
+        try:
+            candidates = list(prop.shrink(case))       # a shrinker that cannot handle a case simply offers nothing
+        except MachineryError:
+            raise
+        except Exception:
+            candidates = []
+        for c in candidates:
             n += 1
             if n >= limit or time.time() > t_end:
                 break
